@@ -213,6 +213,18 @@ CHECKS["C15"] = dict(
          "checked as a relation on seeded runs, not replayed choice by choice.",
     ref="6/C15")
 
+CHECKS["C12"] = dict(
+    technique="TLA+ closed-form geometry on the exact sub-domain (Defs_Geometry: whole-degree great-circle angles, integer squared distances, tabulated cos-lat) + TLC-generated grids replayed on Grid/GeoGrid/GeoNetwork + TLC validation of recorded matrices incl. metric laws (Val_C12)",
+    text="Gen_C12 generates grids of integer-degree points incl. both poles, -180/180 and 0/360 longitudes, coincident and antipodal points, "
+         "integer lattices in 1-4 dimensions, rectangular grids and nearest-node queries with exact distances; TLC compares every pair whose "
+         "great-circle angle is a whole number of degrees (common meridian circle, equator, pole, coincident, antipodal) with the closed form "
+         "to 2^-10 rad, Euclidean distances with exact squared distances, and decides exact symmetry, range [0, pi], self-distance, the "
+         "triangle inequality with 2^-10 slack (also on seeded general-position coordinates), Cartesian-product enumeration, nearest-node "
+         "lookup within the arg-min set, cos-lat node weights, area-weighted connectivity and max link distance consistency.",
+    note="PARTIAL: closed-form equality at generic pairs and the 2^-20 relative bound are not decided (no arccos in TLA+); cos-lat through a "
+         "generated sine table (1e-4).",
+    ref="6/C12")
+
 NOT_APPLICABLE = {
     "C20": "memory safety of compiled kernels is a property of concrete addresses, not of abstract state a TLA+ "
            "specification maintains; nothing binds a PlusCal transcription of index arithmetic to the compiled code "
